@@ -2,6 +2,7 @@ package main
 
 import (
 	"fmt"
+	"net/url"
 	"regexp"
 	"strings"
 
@@ -84,7 +85,7 @@ func runC03(cfg *vh.Config) error {
 	}
 
 	// ---- stream 1+2: canonical documents, their spelling variants (leniency) and exactness of both
-	nBase := cfg.Scale(170, 4000)
+	nBase := cfg.Scale(170, 1400)
 	var bases []struct {
 		t    *target
 		tree *codecgen.J
@@ -143,7 +144,7 @@ func runC03(cfg *vh.Config) error {
 	}
 
 	// ---- stream 2b: generally valid documents in mixed spellings: exactness
-	nMixed := cfg.Scale(250, 6000)
+	nMixed := cfg.Scale(250, 2500)
 	for i := 0; i < nMixed; i++ {
 		t := pickTarget()
 		g := codecgen.NewGen(r, t.Env)
@@ -162,7 +163,7 @@ func runC03(cfg *vh.Config) error {
 	}
 
 	// ---- stream 3: exactly one injected fault
-	nFault := cfg.Scale(700, 20000)
+	nFault := cfg.Scale(700, 7000)
 	disagree := 0
 	for i := 0; i < nFault; i++ {
 		b := vh.Pick(r, bases)
@@ -198,7 +199,167 @@ func runC03(cfg *vh.Config) error {
 	}
 	res.Notes = append(res.Notes, fmt.Sprintf("fault documents the independent reader did not classify as must-reject (not judged): %d", disagree))
 
-	// ---- stream 4: hand-written boundary documents (exactness oracle via the reader needs a tree: these go to the model only)
+	// ---- stream 4: two members of one unexposed proto oneof (both non-null)
+	nSib := cfg.Scale(40, 600)
+	for i := 0; i < nSib; i++ {
+		t := pickTarget()
+		root := t.Env.Lookup(t.Env.Root)
+		var withSib []*codecgen.Prop
+		for _, p := range root.Props {
+			if len(p.Siblings) > 0 && len(p.Path) == 1 {
+				withSib = append(withSib, p)
+			}
+		}
+		if root.Class != "object" || len(withSib) < 2 {
+			continue
+		}
+		a := vh.Pick(r, withSib)
+		var partners []*codecgen.Prop
+		for _, p := range withSib {
+			for _, sib := range a.Siblings {
+				if p.Path[0] == sib {
+					partners = append(partners, p)
+				}
+			}
+		}
+		if len(partners) == 0 {
+			continue
+		}
+		b := vh.Pick(r, partners)
+		g := codecgen.NewGen(r, t.Env)
+		g.Canonical = true
+		tree := codecgen.Obj()
+		tree.Schema = root
+		tree.Add(a.JSON, g.Value(a.Ty, 2)).Add(b.JSON, g.Value(b.Ty, 2))
+		doc := []byte(tree.Print(nil))
+		o := decodeJSON(t, doc)
+		distinct.Add(t.Name + string(doc))
+		res.Count("proto-oneof-siblings")
+		res.Count("proto-oneof-siblings-outcome:" + o.Kind)
+		checkExact(t, tree, doc, o, "proto-oneof-siblings", "")
+		em.add(decCase(t, doc, o), "proto-oneof-siblings", map[string]any{"target": t.Env.Root, "json": short(doc)}, map[string]any{"kind": o.Kind, "err": o.Err})
+		em.caseNo++
+	}
+
+	// ---- stream 5: scalar values supplied as URL query parameters decode like the JSON document
+	nQuery := cfg.Scale(150, 3000)
+	for i := 0; i < nQuery; i++ {
+		t := pickTarget()
+		root := t.Env.Lookup(t.Env.Root)
+		if root.Class != "object" {
+			continue
+		}
+		g := codecgen.NewGen(r, t.Env)
+		g.Canonical = true
+		tree := codecgen.Obj()
+		tree.Schema = root
+		q := url.Values{}
+		var kinds []string
+		for _, p := range root.Props {
+			if !r.Chance(12) || len(p.Path) == 0 {
+				continue
+			}
+			switch {
+			case p.Ty.Class == "scalar" || p.Ty.Class == "enum":
+				v := g.Value(p.Ty, 1)
+				tree.Add(p.JSON, v)
+				q.Add(p.JSON, queryText(v))
+				kinds = append(kinds, tyLabel(p.Ty))
+			case p.Ty.Class == "array" && (p.Ty.Item.Class == "scalar" || p.Ty.Item.Class == "enum"):
+				arr := codecgen.Arr()
+				arr.Ty = p.Ty
+				for k := r.Range(1, 3); k > 0; k-- {
+					v := g.Value(p.Ty.Item, 1)
+					arr.Items = append(arr.Items, v)
+					q.Add(p.JSON, queryText(v))
+				}
+				tree.Add(p.JSON, arr)
+				kinds = append(kinds, "array of "+tyLabel(p.Ty.Item))
+			}
+		}
+		if len(q) == 0 {
+			continue
+		}
+		doc := []byte(tree.Print(nil))
+		oj := decodeJSON(t, doc)
+		oq := decodeQuery(t, q)
+		distinct.Add(t.Name + "q:" + q.Encode())
+		res.Count("query")
+		res.Count("query-outcome:" + oq.Kind)
+		input := map[string]any{"target": t.Env.Root, "query": q.Encode(), "json": short(doc)}
+		if oj.Kind == "ok" {
+			switch oq.Kind {
+			case "ok":
+				if a, b := codecgen.MsgTerm(oq.Msg), codecgen.MsgTerm(oj.Msg); a != b {
+					res.Fail(vh.Failure{Case: em.caseNo, Stream: "query", Sig: "C03 query parameters decode to a different message than the JSON document: " + queryCulprit(t, tree, q), Clause: "scalar values supplied as URL query parameters produce the same message as the canonical spelling", Input: input, Got: firstDiff(a, b)})
+				}
+			case "err":
+				res.Fail(vh.Failure{Case: em.caseNo, Stream: "query", Sig: "C03 query parameter rejected: " + queryCulprit(t, tree, q), Clause: "scalar values supplied as URL query parameters produce the same message as the canonical spelling", Input: input, Got: oq.Err})
+			case "panic":
+				res.Fail(vh.Failure{Case: em.caseNo, Stream: "query", Sig: "C03 QueryToProto panics in " + oq.Site, Clause: "decoding succeeds or is rejected with an error", Input: input, Got: oq.Panic})
+			}
+		}
+		if oq.Kind == "ok" {
+			res.Sample(map[string]any{"stream": "query", "query": q.Encode()}, 16)
+		}
+		if len(q) <= 4 {
+			em.add(queryCase(t, q, oq), "query", input, map[string]any{"kind": oq.Kind, "err": oq.Err})
+		}
+		em.caseNo++
+	}
+
+	// ---- stream 6: boundary literals per scalar kind, one member per document
+	boundary := map[codecgen.Kind][]*codecgen.J{
+		"KInt32":     {codecgen.Num("1e60000000"), codecgen.Num("0e-2000000000"), codecgen.Str("1e60000000"), codecgen.Num("2147483647"), codecgen.Num("-2147483648"), codecgen.Str("2147483647"), codecgen.Num("2147483648"), codecgen.Str("-2147483649"), codecgen.Num("-0"), codecgen.Num("1e2"), codecgen.Num("1.0"), codecgen.Str("+1"), codecgen.Str(" 1"), codecgen.Str("1 "), codecgen.Str("01"), codecgen.Str("")},
+		"KInt64":     {codecgen.Num("1e60000000"), codecgen.Num("0e-2000000000"), codecgen.Str("1e60000000"), codecgen.Num("9223372036854775807"), codecgen.Str("-9223372036854775808"), codecgen.Num("9223372036854775808"), codecgen.Str("9223372036854775808"), codecgen.Num("1e18"), codecgen.Str("1e18")},
+		"KUint32":    {codecgen.Num("1e60000000"), codecgen.Num("0e-2000000000"), codecgen.Str("1e60000000"), codecgen.Num("4294967295"), codecgen.Str("4294967295"), codecgen.Num("4294967296"), codecgen.Num("-0"), codecgen.Str("-0"), codecgen.Num("-1"), codecgen.Str("+1")},
+		"KUint64":    {codecgen.Num("1e60000000"), codecgen.Num("0e-2000000000"), codecgen.Str("1e60000000"), codecgen.Num("18446744073709551615"), codecgen.Str("18446744073709551615"), codecgen.Num("18446744073709551616"), codecgen.Str("18446744073709551616"), codecgen.Num("-0"), codecgen.Num("-1")},
+		"KFloat32":   {codecgen.Num("1e60000000"), codecgen.Num("0e-2000000000"), codecgen.Str("1e60000000"), codecgen.Num("3.4028235e38"), codecgen.Num("3.4028235e+38"), codecgen.Num("3.4028236e38"), codecgen.Num("3.5e38"), codecgen.Num("1.00000005960464477539062500000000000000000000000001"), codecgen.Num("1.000000059604644775390625"), codecgen.Num("16777217"), codecgen.Num("1e-46"), codecgen.Num("1.401298464324817e-45"), codecgen.Num("-0"), codecgen.Str("1e39"), codecgen.Str("Infinity"), codecgen.Str("NaN")},
+		"KFloat64":   {codecgen.Num("1e60000000"), codecgen.Num("0e-2000000000"), codecgen.Str("1e60000000"), codecgen.Num("1.7976931348623157e308"), codecgen.Num("1.7976931348623159e308"), codecgen.Num("5e-324"), codecgen.Num("2e-324"), codecgen.Num("0.1"), codecgen.Num("9007199254740993"), codecgen.Num("-0"), codecgen.Str("-Infinity")},
+		"KBytes":     {codecgen.Str(" "), codecgen.Str(""), codecgen.Str("AQ"), codecgen.Str("AQ=="), codecgen.Str("AQ="), codecgen.Str("AR=="), codecgen.Str("-_-_"), codecgen.Str("+/+/"), codecgen.Str("-/+_"), codecgen.Str("AQID\n"), codecgen.Str("A"), codecgen.Str("AQIDBA")},
+		"KDate":      {codecgen.Str(" "), codecgen.Str(""), codecgen.Str("2024-02-29"), codecgen.Str("2023-02-29"), codecgen.Str("0000-01-01"), codecgen.Str("9999-12-31"), codecgen.Str("10000-01-01"), codecgen.Str("2024-1-2"), codecgen.Str("2024-04-31"), codecgen.Str("1900-02-29"), codecgen.Str("2000-02-29")},
+		"KDecimal":   {codecgen.Str(""), codecgen.Num("1e60000000"), codecgen.Num("0e-2000000000"), codecgen.Str("1e60000000"), codecgen.Str("0"), codecgen.Num("0"), codecgen.Str("-0"), codecgen.Str("1.50"), codecgen.Num("1.50"), codecgen.Str("1e3"), codecgen.Num("1e3"), codecgen.Str(".5"), codecgen.Str("5."), codecgen.Str("1e1000"), codecgen.Str("1e1001"), codecgen.Str("0.0000000000000000000000000000000000001")},
+		"KTimestamp": {codecgen.Str(" "), codecgen.Str(""), codecgen.Str("0001-01-01T00:00:00Z"), codecgen.Str("9999-12-31T23:59:59.999999999Z"), codecgen.Str("1970-01-01T00:00:00Z"), codecgen.Str("2020-02-29T12:00:00+14:00"), codecgen.Str("2020-02-29T12:00:00-12:00"), codecgen.Str("2020-01-01T00:00:00.1234567891Z"), codecgen.Str("2016-12-31T23:59:60Z"), codecgen.Str("2020-01-01T24:00:00Z"), codecgen.Str("2021-02-29T00:00:00Z")},
+		"KBool":      {codecgen.Bool(true), codecgen.Bool(false), codecgen.Str("true"), codecgen.Num("1"), codecgen.Num("0")},
+		"KString":    {codecgen.Str(""), codecgen.Str("\u0000"), codecgen.Str("\U0010FFFF"), codecgen.Num("1"), codecgen.Bool(true)},
+	}
+	for _, t := range []*target{byName["env_full"], byName["env_wide"]} {
+		root := t.Env.Lookup(t.Env.Root)
+		for _, p := range root.Props {
+			var ty *codecgen.Ty
+			wrap := func(v *codecgen.J) *codecgen.J { return v }
+			switch {
+			case p.Ty.Class == "scalar":
+				ty = p.Ty
+			case (p.Ty.Class == "array" || p.Ty.Class == "map") && p.Ty.Item.Class == "scalar":
+				ty = p.Ty.Item
+				pt := p.Ty
+				if p.Ty.Class == "array" {
+					wrap = func(v *codecgen.J) *codecgen.J { a := codecgen.Arr(v); a.Ty = pt; return a }
+				} else {
+					wrap = func(v *codecgen.J) *codecgen.J { o := codecgen.Obj().Add("k", v); o.Ty = pt; return o }
+				}
+			default:
+				continue
+			}
+			for _, lit := range boundary[ty.Kind] {
+				v := lit.Clone()
+				v.Ty = ty
+				tree := codecgen.Obj()
+				tree.Schema = root
+				tree.Add(p.JSON, wrap(v))
+				doc := []byte(tree.Print(nil))
+				o := decodeJSON(t, doc)
+				distinct.Add(t.Name + string(doc))
+				res.Count("boundary")
+				res.Count("boundary-outcome:" + o.Kind)
+				checkExact(t, tree, doc, o, "boundary", "")
+				em.add(decCase(t, doc, o), "boundary", map[string]any{"target": t.Env.Root, "json": short(doc)}, map[string]any{"kind": o.Kind, "err": o.Err})
+				em.caseNo++
+			}
+		}
+	}
+
 	res.Evaluations = em.caseNo
 	res.Distinct = len(distinct) - 1
 	return em.finish(cfg)
@@ -309,4 +470,38 @@ func firstDiff(got, want string) string {
 		return s[lo:hi]
 	}
 	return fmt.Sprintf("variant: …%s… canonical: …%s…", cut(got), cut(want))
+}
+
+// queryText is the text of a scalar as a query parameter: the string content, or the literal.
+func queryText(v *codecgen.J) string {
+	switch v.K {
+	case "bool":
+		if v.B {
+			return "true"
+		}
+		return "false"
+	}
+	return v.S
+}
+
+// queryCulprit names the first single parameter that alone fails or differs.
+func queryCulprit(t *target, tree *codecgen.J, q url.Values) string {
+	for _, m := range tree.Members {
+		one := codecgen.Obj()
+		one.Schema = tree.Schema
+		one.Add(m.Key, m.Val)
+		oj := decodeJSON(t, []byte(one.Print(nil)))
+		oq := decodeQuery(t, url.Values{m.Key: q[m.Key]})
+		if oj.Kind == "ok" && (oq.Kind != "ok" || codecgen.MsgTerm(oq.Msg) != codecgen.MsgTerm(oj.Msg)) {
+			ty := m.Val.Ty
+			if ty == nil {
+				return m.Key
+			}
+			if ty.Class == "array" {
+				return "array of " + tyLabel(ty.Item)
+			}
+			return tyLabel(ty)
+		}
+	}
+	return "combination"
 }
